@@ -363,4 +363,33 @@ Section Spec.
                                   sp_has_obj := match obj_run with Some _ => true | None => false end;
                                   sp_log_levels := match log_idx with Some _ => true | None => false end |}
               end.
+
+  (* The layout rule of a PADDED table.  Padding is a writer option that the file does not
+     record, so this is a separate judgement, asked only about tables written with padding on:
+     every block in front of the log section starts on a multiple of the block size (the first
+     one directly behind the file header); only the block in front of the log section or of the
+     footer may be left unpadded; the log section (log blocks and their index) is not padded. *)
+  Fixpoint aligned_prefix (block_size : N) (bs : list sblock) : bool :=
+    match bs with
+    | [] => true
+    | b :: t =>
+        if sb_typ b =? typ_log then true                  (* the log section and its index are not padded *)
+        else (sb_pos b mod block_size =? 0) && aligned_prefix block_size t
+    end.
+
+  Definition spec_aligned (data : bytes) : sres bool :=
+    let total := length data in
+    let version := nth 4 data 0 in
+    let hs := if version =? 1 then 24%nat else 28%nat in
+    let fs := if version =? 1 then 68%nat else 72%nat in
+    if Nat.leb total (hs + fs) then inr true
+    else
+      let hash_id := if version =? 1 then [115; 104; 97; 49] else slice 24 4 data in
+      let hsize := if bytes_eqb hash_id [115; 50; 53; 54] then 32%nat else 20%nat in
+      let block_size := be_at 3 5 data in
+      let size := N.of_nat (total - fs) in
+      if block_size =? 0 then inr false
+      else
+        do* blocks := parse_blocks (S total) data size block_size hsize hs 0 [] in
+        inr (aligned_prefix block_size blocks).
 End Spec.
